@@ -101,7 +101,7 @@ type Mutation struct {
 // returns the mutated copy. The result is usually, not always, malformed; oracles decide.
 func Mutate(t *rapid.T, b []byte) ([]byte, string) {
 	b = append([]byte(nil), b...)
-	kind := rapid.SampledFrom([]string{"truncate", "flip", "insert", "delete", "badlen", "overlong", "wiretype", "zerotag", "endgroup", "splice", "bigvarint"}).Draw(t, "mutation")
+	kind := rapid.SampledFrom([]string{"truncate", "flip", "insert", "delete", "badlen", "overlong", "wiretype", "zerotag", "endgroup", "splice", "bigvarint", "retype", "retype"}).Draw(t, "mutation")
 	pos := 0
 	if len(b) > 0 {
 		pos = rapid.IntRange(0, len(b)-1).Draw(t, "pos")
@@ -156,6 +156,42 @@ func Mutate(t *rapid.T, b []byte) ([]byte, string) {
 				pos, q = q, pos
 			}
 			b = append(b[:pos], b[q:]...)
+		}
+	case "retype": // a well-formed extra record that repeats an existing field number with another wire type
+		if recs, ok := ref.Split(b); ok && len(recs) > 0 {
+			i := rapid.IntRange(0, len(recs)-1).Draw(t, "rec")
+			var wts []int
+			for _, wt := range []int{0, 1, 2, 5, 3} {
+				if wt != recs[i].Typ {
+					wts = append(wts, wt)
+				}
+			}
+			wt := rapid.SampledFrom(wts).Draw(t, "newtype")
+			extra := ref.Tag(nil, recs[i].Num, wt)
+			switch wt {
+			case 0:
+				extra = append(extra, 0x01)
+			case 1:
+				extra = ref.Fixed64(extra, 1)
+			case 5:
+				extra = ref.Fixed32(extra, 0)
+			case 2:
+				extra = append(extra, 0x01, 0x08)
+			case 3:
+				extra = ref.Tag(extra, recs[i].Num, 4)
+			}
+			var out []byte
+			before := rapid.Bool().Draw(t, "before")
+			for j, r := range recs {
+				if j == i && before {
+					out = append(out, extra...)
+				}
+				out = append(out, r.Raw...)
+				if j == i && !before {
+					out = append(out, extra...)
+				}
+			}
+			b = out
 		}
 	case "bigvarint": // field number > 2^29-1 or > 2^31-1
 		v := rapid.SampledFrom([]uint64{1 << 29, 1<<31 - 1, 1 << 31, 1 << 40, 1<<61 - 1}).Draw(t, "bignum")
